@@ -24,7 +24,7 @@ MIN_NONTRIVIAL = {'quick': 5000, 'thorough': 40000}
 
 
 def plan(tier, seed):
-    specs = [{'kind': 'pairs'}]
+    specs = [{'kind': 'pairs'}, {'kind': 'long'}]
     for i in range(8):
         specs.append({'kind': 'triples', 'part': i, 'parts': 8})
     n, per = (6, 1500) if tier == 'quick' else (16, 6000)
@@ -232,6 +232,40 @@ def _run_shard(spec):
         check(res, '(a is int) is byte', seen)
         res['exhaustive'] = True
         res['samples'].append({'pairs': ['a + b * c', '- a is int == b', 'a ?? b ?? c (must be rejected)']})
+    elif spec['kind'] == 'long':
+        # chains of 10-150 operators of one level (and of mixed levels): grouping is left to right at every length, in the tree and in the value
+        from .. import diff
+        r = random.Random(11)
+        names = 'abcd'
+        for n in (10, 31, 32, 33, 63, 64, 65, 66, 67, 68, 100, 127, 128, 129, 150):
+            for opset in (('+', '-'), ('*', '/', '%'), ('*',), ('+',), ('and',), ('or',), ('and', 'or'), ('==', '!='), ('<', '>='), ('+', '*', '-', '/'), ('or', 'and', '==', '<', '+', '*')):
+                for variant in range(2):
+                    parts = [names[0]]
+                    for i in range(n):
+                        parts += [opset[(i + variant) % len(opset)] if variant == 0 else r.choice(opset), names[(i + 1) % 4]]
+                    check(res, ' '.join(parts), seen, also_compact=False)
+        lines, exp = [], []
+        for n in (20, 63, 64, 65, 66, 67, 70, 100, 129):
+            for tail in ('* 7 / 2', '* 7 % 4', '+ 7 - 2', '- 7 + 2', '/ 2 * 3', '* 3 / 2 * 5 / 3'):
+                for lead_op, unit in (('*', 1), ('+', 0), ('-', 0)):
+                    text = 'x ' + ' '.join(f'{lead_op} {unit}' for _ in range(n)) + ' ' + tail
+                    lines.append(f"write({text}); write(' ');")
+                    # (the documented levels and left-to-right grouping of + - * / % coincide with Python's; all values here are non-negative)
+                    exp.append(str(eval(text.replace('/', '//'), {'x': 3})))
+        src = 'empty @is_you(int x) {\n    ' + '\n    '.join(lines) + '\n}\n'
+        run = diff.compile_and_run(src, ['3'], word=2, max_steps=5_000_000, monitors=False)
+        res['evaluations'] += len(lines)
+        if run.kind != 'ok':
+            runner.fail(res, 'M-EXC', f'long value chains: {run.kind}: {run.detail}', {'source': src[:3000]})
+        else:
+            got = run.outcome.out.decode('latin-1').split()
+            bad = [i for i, (g, w) in enumerate(zip(got, exp)) if g != w]
+            if bad or len(got) != len(exp):
+                i = bad[0] if bad else 0
+                runner.fail(res, 'M-TREE', f'a chain of {lines[i].count(" 1 ") + lines[i].count(" 0 ")} unit operations followed by `{lines[i].split(" 1 ")[-1].split(" 0 ")[-1][:30]}` with x=3 computes {got[i] if i < len(got) else None}, '
+                                           f'the documented grouping gives {exp[i]}', {'source': src[:200] + '...', 'expr': lines[i][:4000]}, expected=exp[i], observed=got[i] if i < len(got) else None)
+            else:
+                runner.count(res, 'long_chain_values_agree', len(exp))
     elif spec['kind'] == 'triples':
         k = 0
         for o1, o2, o3 in itertools.product(ops, ops, ops):
